@@ -58,6 +58,12 @@ add("C16", "exploration",
     "Trusts the harness's independent pack-trailer parser for pack types; prune internals are not compared with the twin.",
     "DESIGN.md section 5 C16")
 
+add("C02", "exploration",
+    "runtime monitor over backup/forget/prune histories with planted index anomalies: after every step all snapshots are read back and compared with their source model, reachability is re-derived by an independent raw parser, check(read_data) runs after every prune, and the storage event log of each prune is checked against the two-phase-delete rule",
+    "Held on the generated histories (4-12 steps; all prune options; anomalies: duplicated index file, pack in two index files, pack both used and marked, unreferenced packs, aged marks on both sides of keep-delete, duplicate blobs, tree/data id collision, stale-index backup followed by a recovering prune). Sampling, not proof.",
+    "Trusts the harness's raw repository reader/writer and the harness clock for the keep-delete boundary (marks are aged 2 min / 10 min away from it).",
+    "DESIGN.md section 5 C02")
+
 NOT_YET = "check not built yet (work in progress in this round)"
 
 def main():
